@@ -2,6 +2,7 @@ package main
 
 import (
 	"bufio"
+	"encoding/json"
 	"fmt"
 	"os"
 	"os/exec"
@@ -12,11 +13,14 @@ import (
 	"syscall"
 	"time"
 
+	"github.com/nyaruka/goflow/assets"
 	"github.com/nyaruka/goflow/envs"
 	"github.com/nyaruka/goflow/excellent"
 	"github.com/nyaruka/goflow/excellent/functions"
 	"github.com/nyaruka/goflow/excellent/types"
+	"github.com/nyaruka/goflow/flows/engine"
 	"github.com/nyaruka/goflow/flows/routers/cases"
+	"github.com/nyaruka/goflow/flows/triggers"
 )
 
 func init() {
@@ -109,7 +113,10 @@ func c04Corpus(r *Rng, n int) []string {
 		out = append(out, "tree|depth|@("+g.expr(r.Range(1, 5))+")")
 	}
 	// template strings
-	alpha := []string{"@", "@@", "(", ")", "\"", "\\", " ", "a", "contact", ".", "name", "é", "😀", "\n", "1", "+", "upper", ",", "[", "]", "=>", "x", "@(", "\"))", "\u0000"}
+	// incl. every kind of character that may or may not start or continue a name after "@": letters, decimal digits of several
+	// scripts, other numbers (No, Nl), marks, underscore
+	alpha := []string{"@", "@@", "(", ")", "\"", "\\", " ", "a", "contact", ".", "name", "é", "😀", "\n", "1", "+", "upper", ",", "[", "]", "=>", "x", "@(", "\"))", "\u0000",
+		"²", "½", "①", "Ⅷ", "٣", "१", "_", "\u0301", "ǅ", "ʰ", "〇", "@²", "@½x", "@Ⅷ.", "@_", "@٣"}
 	for i := 0; i < n; i++ {
 		var b strings.Builder
 		for k := r.Range(1, 30); k > 0; k-- {
@@ -199,6 +206,52 @@ func runC04(c *Ctx) {
 		c04Child(lp, start)
 	}
 	r := c.Rng
+	// ---- M-run-context: the context a run builds for templates, over generated contacts ------------------------
+	{
+		env := envs.NewBuilder().Build()
+		roots := "@contact|@contact.first_name|@contact.name|@(contact)|@contact.urn|@contact.urns|@contact.groups|@contact.fields|@contact.tickets|@fields|@urns|@urns.tel|@run|@run.contact|" +
+			"@input|@results|@globals|@trigger|@resume|@node|@child|@parent|@parent.contact|@legacy_extra|@webhook|@ticket|@(json(contact))|@(format(contact))|@(foreach(contact.urns, (u) => urn_parts(u)))|@(format_urn(contact.urn))"
+		def := `[{"uuid": "76f0a02f-3b75-4b86-9064-e9195e1b3a02", "name": "Ctx", "spec_version": "13.6.0", "language": "eng", "type": "messaging", "revision": 1, "expire_after_minutes": 60, "localization": {},
+			"nodes": [{"uuid": "365293c7-633c-45bd-96b7-0b059766588d", "actions": [` + func() string {
+			var as []string
+			for i, t := range strings.Split(roots, "|") {
+				tj, _ := json.Marshal("x " + t + " y")
+				as = append(as, fmt.Sprintf(`{"uuid": "%08x-4444-4000-8000-000000000001", "type": "send_msg", "text": %s}`, 0xc0400000+i, tj))
+			}
+			return strings.Join(as, ",")
+		}() + `], "exits": [{"uuid": "d7a36118-0a38-4b35-a7e4-ae89042f0d3c"}]}]}]`
+		sa, err := contactAssets(env, def)
+		if err != nil {
+			c.Fail("monitor", "M-run-context", "harness-assets", "context flow rejected: "+err.Error(), nil)
+		} else {
+			for i := 0; i < c.N(150, 5000); i++ {
+				cj := genContactJSON(r, false)
+				desc := map[string]any{"contact": json.RawMessage(cj), "templates": roots}
+				done := c.withTimeout("M-run-context", desc, 20*time.Second, func() {
+					c.Guard("M-run-context", "panic:%site%", desc, func() {
+						restore := setDeterministic(int64(i))
+						defer restore()
+						contact, err := readContact(sa, cj, env, false)
+						if err != nil {
+							c.Count("C04-contact-rejected")
+							return
+						}
+						trig := triggers.NewBuilder(env, assets.NewFlowReference("76f0a02f-3b75-4b86-9064-e9195e1b3a02", "Ctx"), contact).Manual().Build()
+						if _, _, err := engine.NewBuilder().Build().NewSession(sa, trig); err != nil {
+							c.Fail("monitor", "M-run-context", "go-error", "NewSession returned a Go error: "+err.Error(), desc)
+						}
+					})
+				})
+				if !done {
+					break
+				}
+				c.Count("check:M-run-context")
+				var v contactView
+				json.Unmarshal(cj, &v)
+				c.Eval("runctx|" + v.Name + "|" + v.Status)
+			}
+		}
+	}
 	// ---- K: the guards against the model ----------------------------------------------------------------------
 	{
 		env := envs.NewBuilder().Build()
@@ -282,7 +335,7 @@ func runC04(c *Ctx) {
 	lf.Close()
 	defer os.Remove(listPath)
 	exe, _ := os.Executable()
-	start := 0
+	start, deaths := 0, 0
 	slowest := 0
 	for start < len(corpus) {
 		cmd := exec.Command(exe, "-prop", "C04", "-seed", fmt.Sprint(c.Seed), "-tier", "quick", "-driver", "/bin/true")
@@ -358,6 +411,12 @@ func runC04(c *Ctx) {
 		}
 		c.Count("check:M-total")
 		start = victim + 1
+		// every death costs a watchdog period and a new process: a tree on which evaluation keeps dying is reported after a few
+		deaths++
+		if deaths >= 6 {
+			c.Notes = appendNote(c.Notes, fmt.Sprintf("totality sweep stopped at case %d of %d after %d evaluations that hung or killed the process", victim, len(corpus), deaths))
+			break
+		}
 	}
 	c.Dist["slowest-evaluation-ms"] = slowest
 	c.Dist["corpus"] = len(corpus)
